@@ -109,8 +109,15 @@ func (r *Report) Floor(rule string, got, want int) {
 		}
 		return
 	}
-	if got < want {
-		r.add(rule, "floor", "-", "undecided", fmt.Sprintf("rule matched %d instances, fewer than the %d confirmed by hand: anchors no longer resolve", got, want))
+	// the floor guards against a rule that silently stops matching (anchors no longer resolve), not against a maintainer who
+	// merges two or three duplicated code sites into one: for counts of four and more a quarter of the confirmed instances may
+	// go before the rule is called undecided
+	need := want
+	if want >= 4 {
+		need = (want*3 + 3) / 4
+	}
+	if got < need {
+		r.add(rule, "floor", "-", "undecided", fmt.Sprintf("rule matched %d instances, fewer than the %d needed (%d confirmed by hand): anchors no longer resolve", got, need, want))
 	}
 }
 
